@@ -1,2 +1,263 @@
-(* Proofs/SamProofsC.v *)
+(* Proofs/SamProofsC.v — the reader over whole inputs: lines of a stream, the
+   record round trip, files of headers and records, tag lookups. *)
+From Coq Require Import String Permutation Sorting.Sorted.
 From Bio Require Import Base.
+From Bio.gen Require Import FlagGen.
+From Bio.Model Require Import Sam.
+From Bio.Spec Require Import SamSpec.
+From Bio.Proofs Require Import SamProofs SamProofsB.
+Open Scope N_scope.
+
+(* ================================================================== *)
+(* ReadString over LF-terminated lines                                  *)
+
+Lemma split_on_lines : forall ls, Forall (nosep LF) ls ->
+  split_on LF (concat (map (fun l => l ++ [LF]) ls)) = ls ++ [[]].
+Proof.
+  intros ls H. induction H as [|l ls Hl Hls IH]; [reflexivity|].
+  cbn [map concat app]. rewrite <- app_assoc. cbn [app].
+  rewrite split_on_app by assumption. now rewrite IH.
+Qed.
+
+Lemma rs_lines_lines : forall ls, Forall (nosep LF) ls ->
+  rs_lines (concat (map (fun l => l ++ [LF]) ls)) = (ls, []).
+Proof.
+  intros ls H. unfold rs_lines. rewrite split_on_lines by assumption.
+  now rewrite removelast_last, last_last.
+Qed.
+
+Lemma reader_header_lines : forall o ls, Forall (nosep LF) ls ->
+  reader_header o (concat (map (fun l => l ++ [LF]) ls)) TEOF = flat_map (process_line o) ls.
+Proof.
+  intros o ls H. unfold reader_header. rewrite rs_lines_lines by assumption.
+  change (process_line o []) with (@nil (item entry)). apply app_nil_r.
+Qed.
+
+(* a stream that fails: the complete lines, then the error *)
+Lemma rs_lines_tail : forall ls tail, Forall (nosep LF) ls -> nosep LF tail ->
+  rs_lines (concat (map (fun l => l ++ [LF]) ls) ++ tail) = (ls, tail).
+Proof.
+  intros ls tail H Ht.
+  assert (Hs : split_on LF (concat (map (fun l => l ++ [LF]) ls) ++ tail) = ls ++ [tail]).
+  { induction H as [|l ls Hl Hls IH].
+    - cbn [map concat app]. now apply split_on_nosep.
+    - cbn [map concat]. rewrite <- !app_assoc. cbn [app].
+      rewrite split_on_app by assumption. now rewrite IH. }
+  unfold rs_lines. rewrite Hs. now rewrite removelast_last, last_last.
+Qed.
+
+Lemma reader_header_lines_err : forall o ls tail, Forall (nosep LF) ls -> nosep LF tail ->
+  reader_header o (concat (map (fun l => l ++ [LF]) ls) ++ tail) TErr
+  = flat_map (process_line o) ls ++ [ErrItem].
+Proof.
+  intros o ls tail H Ht. unfold reader_header. now rewrite rs_lines_tail.
+Qed.
+
+Lemma process_line_cr : forall o l, drop_cr l = l -> process_line o (l ++ [CR]) = process_line o l.
+Proof. intros o l H. unfold process_line. now rewrite drop_cr_snoc, H. Qed.
+
+Definition eol_ok (eol : bytes) : Prop := eol = [LF] \/ eol = [CR; LF].
+
+Lemma reader_header_lines_eol : forall o eol ls, eol_ok eol ->
+  Forall (fun l => nosep LF l /\ drop_cr l = l) ls ->
+  reader_header o (concat (map (fun l => l ++ eol) ls)) TEOF = flat_map (process_line o) ls.
+Proof.
+  intros o eol ls [->| ->] H.
+  - apply reader_header_lines. eapply Forall_impl; [|exact H]. now intros l [Hl _].
+  - match goal with |- reader_header o ?X TEOF = _ =>
+      assert (E : X = concat (map (fun l => l ++ [LF]) (map (fun l => l ++ [CR]) ls))) end.
+    { rewrite map_map. f_equal. apply map_ext. intro l. now rewrite <- app_assoc. }
+    rewrite E. rewrite reader_header_lines.
+    + clear E. induction H as [|l ls [Hl Hd] Hls IH]; [reflexivity|].
+      cbn [map flat_map]. rewrite process_line_cr by assumption. now rewrite IH.
+    + apply Forall_map. eapply Forall_impl; [|exact H]. intros l [Hl _].
+      apply nosep_app; [assumption|]. repeat constructor.
+Qed.
+
+(* ================================================================== *)
+(* one record                                                          *)
+
+Lemma roundtrip : forall o r, sam_ok o r ->
+  exists r', reader_header o (write o r) TEOF = [Rec (Aln r')] /\ sam_eq r r'.
+Proof.
+  intros o r H. destruct (process_line_written o r H) as [r' [Hp He]].
+  exists r'. split; [|exact He].
+  assert (E : write o r = concat (map (fun l => l ++ [LF]) [line o r]))
+    by (rewrite write_line; cbn [map concat]; now rewrite app_nil_r).
+  rewrite E.
+  rewrite reader_header_lines by (constructor; [now apply line_nosep_lf|constructor]).
+  cbn [flat_map]. rewrite Hp. reflexivity.
+Qed.
+
+Lemma roundtrip_reader : forall o r, sam_ok o r ->
+  exists r', reader o (write o r) TEOF = [Rec r'] /\ sam_eq r r'.
+Proof.
+  intros o r H. destruct (roundtrip o r H) as [r' [Hr He]].
+  exists r'. split; [|exact He]. unfold reader. rewrite Hr. reflexivity.
+Qed.
+
+Lemma one_line : forall o r, sam_ok o r ->
+  exists l, write o r = l ++ [LF] /\ ~ In LF l.
+Proof.
+  intros o r H. exists (line o r). split; [apply write_line|].
+  apply nosep_not_in. now apply line_nosep_lf.
+Qed.
+
+Lemma tags_sorted : forall o r,
+  exists ts, write_calls o r = join_with [TAB] (fields11 r) :: map (fun t => TAB :: t) ts ++ [[LF]]
+    /\ Sorted bytes_le ts /\ Permutation ts (map (tag_text o) (s_tags r)).
+Proof.
+  intros o r. exists (tags_text o (s_tags r)). split; [reflexivity|]. split.
+  - apply sort_strings_sorted.
+  - apply sort_strings_perm.
+Qed.
+
+(* ================================================================== *)
+(* files                                                               *)
+
+Lemma not_in_nosep : forall c s, ~ In c s -> nosep c s.
+Proof.
+  intros c s H. unfold nosep. apply Forall_forall. intros x Hx.
+  apply N.eqb_neq. intro E. subst. contradiction.
+Qed.
+
+Lemma with_eol_write : forall o eol r, with_eol eol (write o r) = line o r ++ eol.
+Proof. intros. unfold with_eol. now rewrite write_line, removelast_last. Qed.
+
+Lemma file_text_lines : forall o eol hs rs,
+  file_text o eol hs rs = concat (map (fun l => l ++ eol) (hs ++ map (line o) rs)).
+Proof.
+  intros. unfold file_text. rewrite map_app, concat_app, map_map. f_equal. f_equal.
+  apply map_ext. intro r. apply with_eol_write.
+Qed.
+
+Lemma process_header : forall o h, header_ok h -> process_line o h = [Rec (Hdr h)].
+Proof.
+  intros o h [[t Ht] [_ Hd]]. unfold process_line. rewrite Hd. subst h. reflexivity.
+Qed.
+
+Lemma process_headers : forall o hs, Forall header_ok hs ->
+  flat_map (process_line o) hs = map (fun h => Rec (Hdr h)) hs.
+Proof.
+  intros o hs H. induction H as [|h hs Hh Hhs IH]; [reflexivity|].
+  cbn [flat_map map]. rewrite process_header by assumption. now rewrite IH.
+Qed.
+
+Lemma process_records : forall o rs, Forall (sam_ok o) rs ->
+  exists rs', flat_map (process_line o) (map (line o) rs) = map (fun r => Rec (Aln r)) rs'
+              /\ Forall2 sam_eq rs rs'.
+Proof.
+  intros o rs H. induction H as [|r rs Hr Hrs [rs' [IH1 IH2]]].
+  - exists []. split; [reflexivity|constructor].
+  - destruct (process_line_written o r Hr) as [r' [Hp He]].
+    exists (r' :: rs'). split; [|now constructor].
+    cbn [map flat_map]. now rewrite Hp, IH1.
+Qed.
+
+Lemma file_roundtrip : forall o eol hs rs, eol_ok eol ->
+  Forall header_ok hs -> Forall (sam_ok o) rs ->
+  exists rs',
+    reader_header o (file_text o eol hs rs) TEOF
+      = map (fun h => Rec (Hdr h)) hs ++ map (fun r => Rec (Aln r)) rs'
+    /\ reader o (file_text o eol hs rs) TEOF = map Rec rs'
+    /\ Forall2 sam_eq rs rs'.
+Proof.
+  intros o eol hs rs He Hh Hr.
+  destruct (process_records o rs Hr) as [rs' [Hp H2]].
+  exists rs'.
+  assert (E : reader_header o (file_text o eol hs rs) TEOF
+              = map (fun h => Rec (Hdr h)) hs ++ map (fun r => Rec (Aln r)) rs').
+  { rewrite file_text_lines. rewrite reader_header_lines_eol; [|assumption|].
+    - rewrite flat_map_app. rewrite process_headers by assumption. now rewrite Hp.
+    - apply Forall_app. split.
+      + eapply Forall_impl; [|exact Hh]. intros h [_ [Hlf Hd]]. split; [now apply not_in_nosep|assumption].
+      + apply Forall_map. eapply Forall_impl; [|exact Hr]. intros r Hok. split.
+        * now apply line_nosep_lf.
+        * apply drop_cr_nosep. now apply line_nosep_cr. }
+  split; [exact E|]. split; [|exact H2].
+  unfold reader. rewrite E. rewrite flat_map_app.
+  assert (E1 : forall l, flat_map reader_filter (map (fun h => Rec (Hdr h)) l) = [])
+    by (induction l as [|x l IH]; [reflexivity|cbn [map flat_map reader_filter app]; exact IH]).
+  assert (E2 : forall l, flat_map reader_filter (map (fun r => Rec (Aln r)) l) = map Rec l)
+    by (induction l as [|x l IH]; [reflexivity|cbn [map flat_map reader_filter app]; now rewrite IH]).
+  now rewrite E1, E2.
+Qed.
+
+(* ================================================================== *)
+(* the same map: equal lookups                                         *)
+
+Lemma alookup_in : forall (m : tagmap) k v, NoDup (map fst m) -> In (k, v) m -> alookup k m = Some v.
+Proof.
+  induction m as [|[k' v'] m IH]; intros k v Hnd Hin; [contradiction|].
+  cbn [map fst] in Hnd. inversion Hnd as [|? ? Hni Hnd']; subst.
+  unfold alookup. cbn [find fst snd].
+  destruct Hin as [E|Hin].
+  - injection E as -> ->. now rewrite beqb_refl.
+  - assert (k' <> k).
+    { intro; subst. apply Hni. change k with (fst (k, v)). now apply in_map. }
+    rewrite beqb_neq by assumption. now apply IH.
+Qed.
+
+Lemma alookup_some : forall (m : tagmap) k v, alookup k m = Some v -> In (k, v) m.
+Proof.
+  induction m as [|[k' v'] m IH]; intros k v H; [discriminate|].
+  unfold alookup in H. cbn [find fst snd] in H.
+  destruct (beqb k' k) eqn:E.
+  - apply beqb_eq in E. subst. cbn [snd] in H. injection H as ->. now left.
+  - right. now apply IH.
+Qed.
+
+Lemma perm_lookup : forall (m m' : tagmap) k, NoDup (map fst m) -> Permutation m m' ->
+  tag_lookup k m = tag_lookup k m'.
+Proof.
+  intros m m' k Hnd Hp. unfold tag_lookup.
+  assert (Hnd' : NoDup (map fst m')) by (eapply Permutation_NoDup; [|exact Hnd]; now apply Permutation_map).
+  destruct (alookup k m) as [v|] eqn:E.
+  - apply alookup_some in E. symmetry. apply alookup_in; [assumption|].
+    eapply Permutation_in; eassumption.
+  - destruct (alookup k m') as [v'|] eqn:E'; [|reflexivity].
+    apply alookup_some in E'. apply (Permutation_in _ (Permutation_sym Hp)) in E'.
+    apply (alookup_in _ _ _ Hnd) in E'. congruence.
+Qed.
+
+Lemma sam_eq_lookup : forall r r', NoDup (map fst (s_tags r)) -> sam_eq r r' ->
+  forall k, tag_lookup k (s_tags r) = tag_lookup k (s_tags r').
+Proof.
+  intros r r' Hnd He k. apply perm_lookup; [assumption|]. apply He.
+Qed.
+
+Lemma file_text_lf : forall o hs rs,
+  file_text o [LF] hs rs = concat (map (fun h => h ++ [LF]) hs) ++ concat (map (write o) rs).
+Proof.
+  intros. unfold file_text. f_equal. f_equal. apply map_ext. intro r.
+  now rewrite with_eol_write, write_line.
+Qed.
+
+(* ================================================================== *)
+(* flags, membership form                                              *)
+
+Lemma Forall2_in_l : forall {A B} (R : A -> B -> Prop) l1 l2 x,
+  Forall2 R l1 l2 -> In x l1 -> exists y, In y l2 /\ R x y.
+Proof.
+  intros A B R l1 l2 x H. induction H as [|a b l1 l2 Hab H IH]; intro Hin; [contradiction|].
+  destruct Hin as [->|Hin].
+  - exists b. split; [now left|assumption].
+  - destruct (IH Hin) as [y [Hy Hr]]. exists y. split; [now right|assumption].
+Qed.
+
+Lemma flag_getters_in : forall name g, In (name, g) flag_getters ->
+  exists n, In (name, n) flag_spec_bits /\ forall f : Z, g f = Z.testbit f n.
+Proof.
+  intros name g Hin.
+  destruct (Forall2_in_l _ _ _ _ flag_getters_exact Hin) as [[name' n] [Hy [Hn Hg]]].
+  cbn [fst snd] in *. subst name'. exists n. split; assumption.
+Qed.
+
+Lemma flag_setters_in : forall name s, In (name, s) flag_setters ->
+  exists n, In (name, n) flag_spec_bits /\ forall (f : Z) (v : bool) (j : Z),
+      Z.testbit (s f v) j = if (j =? n)%Z then v else Z.testbit f j.
+Proof.
+  intros name s Hin.
+  destruct (Forall2_in_l _ _ _ _ flag_setters_exact Hin) as [[name' n] [Hy [Hn Hs]]].
+  cbn [fst snd] in *. subst name'. exists n. split; assumption.
+Qed.
